@@ -4,9 +4,16 @@ package c11
 
 import (
 	"fmt"
+	"sync/atomic"
+	"time"
 
 	"github.com/formancehq/numscript/internal/verifsim/core"
 )
+
+// blockWatchdog is how long a parked task waits, without any scheduling step
+// happening, before concluding that the running task is blocked on a lock a
+// parked task holds. The pinned code takes no lock; a change under test may.
+const blockWatchdog = 1500 * time.Millisecond
 
 // Switch is one scheduling decision: at global step At (yields and task exits
 // share one counter) hand the processor to task To, if it is runnable.
@@ -88,6 +95,9 @@ type sched struct {
 	tasks    []*task
 	cur      *task
 	ch       chooser
+	progress atomic.Int64 // bumped at every scheduling step; read by parked tasks' watchdogs
+	blocked  atomic.Bool  // the code under test blocked on a lock: tasks were released to run freely
+	left     atomic.Int32 // tasks not yet finished (used once blocked)
 	step     int
 	switches int
 	main     chan struct{}
@@ -121,11 +131,15 @@ func (s *sched) runnable() []int {
 // yield is installed as hook.YieldFn and as the SimStore yield: the running
 // task offers the processor.
 func (s *sched) yield(site string) {
+	if s.blocked.Load() {
+		return
+	}
 	t := s.cur
 	if t == nil || s.aborted {
 		return
 	}
 	s.step++
+	s.progress.Add(1)
 	t.yields++
 	t.lastSite = site
 	switch site {
@@ -156,12 +170,48 @@ func (s *sched) yield(site string) {
 	s.cur = next
 	next.started = true
 	next.wake <- struct{}{}
-	<-t.wake
+	s.park(t)
+}
+
+// park waits to be scheduled again. If nothing at all happens for the watchdog
+// period the running task must be blocked (the scheduler's yield points are
+// dense: every statement): all parked tasks are released to run freely so that
+// whoever holds the lock can finish, and the case is abandoned.
+func (s *sched) park(t *task) {
+	for {
+		seen := s.progress.Load()
+		select {
+		case <-t.wake:
+			return
+		case <-time.After(blockWatchdog):
+			if s.blocked.Load() {
+				return
+			}
+			if s.progress.Load() == seen {
+				s.blocked.Store(true)
+				for _, o := range s.tasks {
+					select {
+					case o.wake <- struct{}{}:
+					default:
+					}
+				}
+				return
+			}
+		}
+	}
 }
 
 func (s *sched) exit(t *task) {
+	if s.blocked.Load() {
+		if s.left.Add(-1) == 0 {
+			s.main <- struct{}{}
+		}
+		return
+	}
+	s.left.Add(-1)
 	t.done = true
 	s.step++
+	s.progress.Add(1)
 	run := s.runnable()
 	if len(run) == 0 {
 		s.cur = nil
@@ -183,10 +233,11 @@ func (s *sched) run() {
 	if len(s.tasks) == 0 {
 		return
 	}
+	s.left.Store(int32(len(s.tasks)))
 	for _, t := range s.tasks {
 		t := t
 		go func() {
-			<-t.wake
+			s.park(t)
 			defer s.exit(t)
 			t.body()
 		}()
